@@ -215,3 +215,17 @@ def add_groups_notification_roundtrip(n: Obj("ProtocolTreeNode"), t: Int):
     ensures(n_children(m) == 1 and child(m, 0).tag == "add" and child(m, 0).data is None and n_children(child(m, 0)) == 2)
     ensures(child(child(m, 0), 0).tag == "participant" and child(child(m, 0), 1).tag == "participant")
     ensures(attr(child(child(m, 0), 0), "jid") == attr(in_participant(0), "jid") and attr(child(child(m, 0), 1), "jid") == attr(in_participant(1), "jid"))
+
+
+@scenario
+def probe_create_groups(n: Obj("ProtocolTreeNode"), t: Int, creation: Int, s_t: Int):
+    requires(group_notification_shape(n, t))
+    requires(pure_child(n, "create") is not None and present(pure_child(n, "create"), "type") and present(pure_child(n, "create"), "key"))
+    requires(pure_child(pure_child(n, "create"), "group") is not None)
+    requires(is_number(pure_child(pure_child(n, "create"), "group"), "creation", creation) and is_number(pure_child(pure_child(n, "create"), "group"), "s_t", s_t))
+    e = CreateGroupsNotificationProtocolEntity.fromProtocolTreeNode(n)
+    m = e.toProtocolTreeNode()
+    ensures(same_group_notification_attrs(m, n))
+    ensures(n_children(m) == 1 and child(m, 0).tag == "create" and n_children(child(m, 0)) == 1 and child(child(m, 0), 0).tag == "group")
+    ensures(attr(child(child(m, 0), 0), "creation") == attr(pure_child(pure_child(n, "create"), "group"), "creation"))
+    ensures(attr(child(child(m, 0), 0), "s_t") == attr(pure_child(pure_child(n, "create"), "group"), "s_t"))
